@@ -5,7 +5,7 @@ ID=$1
 W=/tmp/seed_$ID
 O=/tmp/seed_${ID}_out
 cd $W || exit 2
-git checkout -q -- . && git clean -fdq -e _build
+rm -rf _build; git checkout -q -- . && git clean -fdq
 git apply $O/patch.diff || { echo "CONFIRM $ID: patch does not apply"; exit 1; }
 cmake -G Ninja -S . -B _build -DCMAKE_BUILD_TYPE=RelWithDebInfo >/dev/null
 ninja -C _build -k 0 >/tmp/seed_${ID}_build.log 2>&1
